@@ -177,12 +177,16 @@ def main(ctx):
     results = parallel(lambda s: validate_part(ctx, s), sums, workers=min(ncpu(), 12))
     log("C12: traces validated at %.0f s" % (time.time() - ctx.t0))
     nfail = 0
+    per_sig = {}
     for s, (okq, okl, fails) in zip(sums, results):
         ctx.traces_ok += okq
         ctx.trace_events += okl
         for fl in fails:
             nfail += 1
             sig, what = describe(fl)
+            per_sig[sig] = per_sig.get(sig, 0) + 1
+            if per_sig[sig] > 3:      # three replays per kind of failure are kept, all are counted
+                continue
             name = "seq-%d-%d" % (fl["part"], nfail)
             tf = ctx.path(name + ".ndjson")
             open(tf, "w").writelines(fl["lines"])
@@ -215,7 +219,7 @@ def main(ctx):
              "records_lost": stats.get("lost", 0), "trials_with_loss": stats.get("trials_with_loss", 0),
              "strict_mode_errors": stats.get("strict_errors", 0), "dropper_calls": stats.get("dropper_calls", 0),
              "panics": stats.get("panics", 0), "damage_lines": stats.get("rd_lines", 0),
-             "sequences_rejected": nfail}
+             "sequences_rejected": nfail, "rejected_by_kind": per_sig}
     return finish(ctx, "model_checking", mc_coverage(ctx, extra), ASSUME)
 
 
